@@ -260,6 +260,16 @@ theorem model_matches_source (p : Policy) :
     p.sigUri? = lookup sigUri p.rustName := by
   cases p <;> decide +kernel
 
+open OpcuaVerif.Generated.CryptoPolicy in
+/-- `concat_data_and_nonce` appends data then nonce, and both `create_signature_data` and `verify_signature_data` pass (certificate, nonce) in that order
+(regenerated from the source on every check; the right-hand sides are the shapes the model was
+written from — a change of a guard, an argument order or a condition breaks this obligation) -/
+theorem source_shape :
+    lookup shape "concat.order" = some "data|nonce" ∧
+    lookup shape "create.guard_and_data" = some "contained_cert.is_null()||nonce.is_null(),contained_cert.as_ref(),nonce.as_ref()" ∧
+    lookup shape "verify.data" = some "contained_cert.as_ref(),contained_nonce" := by
+  decide +kernel
+
 /-! ### non-vacuity -/
 
 example : Unused [] 7 := fun _ h => absurd h (by simp)
